@@ -172,34 +172,7 @@ func runC16(w *core.World, r *core.Report) {
 	checkSourceReachesParserUnmodified(w, r, "R9")
 	checkMenuAddReachesProcessor(w, r, "R10")
 	checkPreprocessorFlagPositions(w, r, "R11")
-	{
-		// the number path of the assembler: what asm.Parse reaches in the package, and the grammar's
-		// capture methods (called by the parser library through reflection); only conversions of
-		// numbers that were parsed from text (strconv results) are of interest here
-		var af []*ssa.Function
-		roots := []*ssa.Function{w.Func("asm", "Parse")}
-		for _, fn := range w.FuncsIn("asm") {
-			if fn.Name() == "Capture" && fn.Signature.Recv() != nil {
-				roots = append(roots, fn)
-			}
-		}
-		seen, _ := w.Reachable(roots)
-		for _, fn := range w.FuncsIn("asm") {
-			if !seen[fn] || len(fn.Blocks) == 0 {
-				continue
-			}
-			fromText := false
-			for _, c := range core.Calls(fn) {
-				if strings.HasPrefix(core.CallName(c), "strconv.") {
-					fromText = true
-				}
-			}
-			if fromText {
-				af = append(af, fn)
-			}
-		}
-		checkNarrowing(w, r, "R8", af, "a number written in the source is reduced modulo the width of a narrower type on its way to the instruction: the instruction emitted carries another number than the one written")
-	}
+	checkAsmNumbersNotNarrowed(w, r, "R8")
 	checkFreshLineBuffer(w, r, "R6")
 	checkNewLineArgsUnmodified(w, r, "R6")
 }
@@ -997,4 +970,37 @@ func checkSourceReachesParserUnmodified(w *core.World, r *core.Report, rule stri
 	}
 	r.Check(bad == "" && n > 0, rule, "asm.Parse: the source text reaches the parser as written", badPos, fmt.Sprintf("%d reader(s) over the parameter itself", n),
 		"the source is rewritten before it is lexed: characters the lexer gives a meaning (line ends, separators) are added or removed, so lines are joined or split and the instructions emitted are not the ones written: "+bad)
+}
+
+// checkAsmNumbersNotNarrowed (C16 R8, C14 R16): numbers the assembler parses from text are not
+// narrowed without a range check on their way to the instruction.
+func checkAsmNumbersNotNarrowed(w *core.World, r *core.Report, rule string) {
+	{
+		// the number path of the assembler: what asm.Parse reaches in the package, and the grammar's
+		// capture methods (called by the parser library through reflection); only conversions of
+		// numbers that were parsed from text (strconv results) are of interest here
+		var af []*ssa.Function
+		roots := []*ssa.Function{w.Func("asm", "Parse")}
+		for _, fn := range w.FuncsIn("asm") {
+			if fn.Name() == "Capture" && fn.Signature.Recv() != nil {
+				roots = append(roots, fn)
+			}
+		}
+		seen, _ := w.Reachable(roots)
+		for _, fn := range w.FuncsIn("asm") {
+			if !seen[fn] || len(fn.Blocks) == 0 {
+				continue
+			}
+			fromText := false
+			for _, c := range core.Calls(fn) {
+				if strings.HasPrefix(core.CallName(c), "strconv.") {
+					fromText = true
+				}
+			}
+			if fromText {
+				af = append(af, fn)
+			}
+		}
+		checkNarrowing(w, r, rule, af, "a number written in the source is reduced modulo the width of a narrower type on its way to the instruction: the instruction emitted carries another number than the one written")
+	}
 }
